@@ -260,6 +260,20 @@ func c16Exec(r *vf.Run, cfg c16Cfg, c *vf.Chooser) (keys, whats []string, contro
 	protoStates(r, sess.Transcript)
 	if trace.Accepted && sess.Authed {
 		r.Outcome("authenticated/" + mech)
+		if cfg.Setters {
+			r.Outcome("reached/authenticated-client-configured-through-setters")
+		}
+		if cfg.NoHello {
+			r.Outcome("reached/authenticated-without-hello-call")
+		}
+		if cfg.Retry {
+			r.Outcome("reached/authenticated-with-retry")
+		}
+		for _, e := range sess.Transcript {
+			if e.Verb == "HELO" {
+				r.Outcome("reached/authenticated-after-helo-fallback")
+			}
+		}
 	}
 	// collect everything that was logged
 	var texts []string
@@ -416,6 +430,8 @@ func init() {
 				}
 			}
 			r.Extra("scanner_control_mechanisms_seen_with_logauthdata", hits)
+			r.Reached("reached/authenticated-client-configured-through-setters", "reached/authenticated-without-hello-call", "reached/authenticated-with-retry", "reached/authenticated-after-helo-fallback",
+				"authenticated/PLAIN", "authenticated/LOGIN", "authenticated/CRAM-MD5", "authenticated/XOAUTH2", "authenticated/SCRAM-SHA-1", "authenticated/SCRAM-SHA-256", "authenticated/SCRAM-SHA-256-PLUS")
 		},
 		Replay: func(r *vf.Run, kase json.RawMessage) {
 			var k c16Case
